@@ -30,6 +30,8 @@ func init() {
 
 func runC18(c *Ctx) {
 	p := c.Progs["mod"]
+	c.Rule("C18.Y", "compatibility with the party that is not changed with this code: end users are served under every service name other than the agent-facing ones", 1)
+	ruleEndUserHandlerForEveryOtherService(c, p, "C18.Y")
 	c.Rule("C18.L", "liveness gate", 12)
 	c.Rule("C18.F", "shared fallback only when the user has no match", 3)
 	c.Rule("C18.N", "lookup by the user's e-mail and the request path; 404 when it fails; stored backend entities stay loadable", 6)
